@@ -4158,6 +4158,18 @@ iwrc iwkv_cursor_del(struct iwkv_cursor *cur, iwkv_opflags opflags) {
     rc = _kvblk_key_get(sblk->kvblk, mm, sblk->pi[cur->cnpos], &key);
     fsm->release_mmap(fsm);
     RCGO(rc, finish2);
+    if (db->dbflg & IWDB_COMPOUND_KEYS) {
+      // the stored key starts with the compound number: the lookup below wants it apart
+      int step;
+      IW_READVNUMBUF64(key.data, key.compound, step);
+      if ((size_t) step >= key.size) {
+        rc = IWKV_ERROR_CORRUPTED;
+        goto finish2;
+      }
+      key.size -= step;
+      memmove(key.data, (uint8_t*) key.data + step, key.size);
+    }
+
     lx->key = &key;
     rc = _lx_del_sblk_lw(lx, sblk, cur->cnpos);
     lx->key = 0;
